@@ -467,6 +467,7 @@ Section Total.
     - rewrite sf_typed. destruct Hr as [Hok Hcl]. rewrite ty_ok_typed in Hok. rewrite classes_of_typed in Hcl.
       apply andb_true_iff in Hok. destruct Hok as [Hg Hok]. rewrite Hg.
       destruct (map_st_total _ fuel ts H (ready_members fuel ts Hok Hcl) [] st) as [ss [st1 E1]]. rewrite E1. eauto.
+    - destruct Hr as [Hok _]. discriminate.
   Qed.
 
   Theorem total_fuel : forall fuel, total_at (schema_fuel E cfg fuel) fuel.
@@ -525,20 +526,63 @@ Proof.
   - intros H. right. apply IH. exact H.
 Qed.
 
-Lemma digest_fields_spec al l f :
-  In f (digest_fields al l) ->
-  exists r, In r l /\ r_init r = true /\ digest_field al r = Some f /\
+Lemma digest_fields_spec al dial conf l f :
+  In f (digest_fields al dial conf l) ->
+  exists r, In r l /\ r_init r = true /\ digest_field al dial conf r = Some f /\ f_ty f = resolve_field dial conf r /\
             f_req f = (match r_def r with RNone => true | _ => false end) /\
             (f_default f <> None <-> exists v, r_def r = RDefault v).
 Proof.
   induction l as [|r t IH]; simpl; [contradiction|].
-  destruct (digest_field al r) as [g|] eqn:Ed.
+  destruct (digest_field al dial conf r) as [g|] eqn:Ed.
   - intros [<-|H].
     + exists r. assert (Ei: r_init r = true) by (unfold digest_field in Ed; destruct (r_init r); [reflexivity|discriminate]).
       split; [left; reflexivity|]. split; [exact Ei|]. split; [exact Ed|].
       unfold digest_field in Ed. rewrite Ei in Ed. inversion Ed; subst; simpl.
-      split; [reflexivity|].
+      split; [reflexivity|]. split; [reflexivity|].
       destruct (r_def r); split; try (intros H; exfalso; apply H; reflexivity); try (intros [v Hv]; discriminate); eauto.
     + destruct (IH H) as [r' [A B]]. exists r'. split; [right; exact A|exact B].
   - intros H. destruct (IH H) as [r' [A B]]. exists r'. split; [right; exact A|exact B].
+Qed.
+
+(* ---- overridden serialization: what the rewriting does ---- *)
+Lemma resolve_ty_noop t : resolve_ty [] [] t = t.
+Proof.
+  induction t using ty_ind'; try reflexivity; cbn [resolve_ty table_ov tykey apply_ov first_ser lookup]; try (rewrite IHt; reflexivity).
+  all: f_equal; induction H as [|x r Hx Hr IH]; simpl; [reflexivity|rewrite Hx; f_equal; exact IH].
+Qed.
+
+(* third-party classes are eliminated when every one of them is covered by a serializing strategy whose replacement is supported *)
+Fixpoint covered (dial conf: list (string * ov)) (t: ty) : bool :=
+  match apply_ov (table_ov dial conf t) t with
+  | Some t' => ty_ok t'
+  | None =>
+    match t with
+    | TList a | TSet a | TDict a | TWrap a => covered dial conf a
+    | TTuple ts => forallb (covered dial conf) ts
+    | TUnion ts => match ts with [] => false | _ => forallb (covered dial conf) ts end
+    | TNamed _ n ts _ | TTyped n ts _ => str_nodup n && Nat.eqb (List.length n) (List.length ts) && forallb (covered dial conf) ts
+    | TOpaque _ => false
+    | _ => ty_ok t
+    end
+  end.
+
+Lemma forallb_map_ok dial conf ts :
+  Forall (fun t => covered dial conf t = true -> ty_ok (resolve_ty dial conf t) = true) ts ->
+  forallb (covered dial conf) ts = true -> forallb ty_ok (map (resolve_ty dial conf) ts) = true.
+Proof.
+  induction 1 as [|x r Hx Hr IH]; simpl; [reflexivity|]. intros H. apply andb_true_iff in H. destruct H as [H1 H2].
+  rewrite (Hx H1), (IH H2). reflexivity.
+Qed.
+
+Theorem covered_ok dial conf t : covered dial conf t = true -> ty_ok (resolve_ty dial conf t) = true.
+Proof.
+  induction t using ty_ind'; intros Hc; cbn [covered resolve_ty] in *;
+    destruct (apply_ov (table_ov dial conf _) _) as [t'|] eqn:Ea; try exact Hc; try (cbn [ty_ok]; apply IHt; exact Hc).
+  - (* tuple *) rewrite ty_ok_tuple. apply forallb_map_ok; assumption.
+  - (* union *) rewrite ty_ok_union. destruct ts as [|t0 tr]; [discriminate|].
+    cbn [map]. apply (forallb_map_ok dial conf (t0 :: tr)); assumption.
+  - (* named *) rewrite ty_ok_named. apply andb_true_iff in Hc. destruct Hc as [Hg Hc].
+    rewrite map_length, Hg. apply forallb_map_ok; assumption.
+  - (* typed *) rewrite ty_ok_typed. apply andb_true_iff in Hc. destruct Hc as [Hg Hc].
+    rewrite map_length, Hg. apply forallb_map_ok; assumption.
 Qed.
